@@ -172,7 +172,18 @@ func runC11(c *core.Ctx) {
 			break
 		}
 	}
+	// global registration at a quiescent point (no goroutine of the workload is running), then the goroutines
+	// again: whatever the earlier calls left behind (unknown rule names, refused inputs) must not stand in its way
+	if !c11LateRegistration(c, "vmon_late_1") {
+		return // every further library call would block behind the stuck registration
+	}
 	c11Bursts(c, G)
+	if !c11LateRegistration(c, "vmon_late_2") {
+		return
+	}
+	if out := normErr(drive.Call(func() error { return valid.Var("bad", "vmon_late_1", "vmon_late_2", "vmon_glob") })); strings.Count(out, "m_vmon_glob_") != 3 {
+		res.Violate("C11|late-registration|not-effective", fmt.Sprintf("functions registered globally between two rounds of goroutines are not all resolved afterwards: %q", trunc(out, 300)), out)
+	}
 	if yc != nil {
 		res.Count("double_misses", yc.dbl)
 		res.Count("cache_misses", yc.miss)
@@ -408,4 +419,34 @@ func c11Round(c *core.Ctx, G, perG int, yc *yieldCache, round int) {
 		s := streams[0][len(streams[0])/2]
 		res.Sample("run", 2, map[string]interface{}{"goroutines": G, "calls_per_goroutine": len(streams[0]), "cache": c.Args["cache"], "gomaxprocs": c.Args["procs"], "max_in_flight": maxIn, "kind_pairs_overlapping": pairs, "example_call": trunc(s.Desc, 300), "its_result": trunc(results[0][len(streams[0])/2], 300)})
 	}
+}
+
+// c11LateRegistration registers a global function while no workload goroutine is running. The call is
+// made on a goroutine of its own so that a registration that never returns is seen as what it is: after
+// a generous wait the goroutine dump decides — blocked on a lock inside the library's registration is a
+// violation (nothing else is running that could hold it legitimately), anything else is inconclusive.
+func c11LateRegistration(c *core.Ctx, name string) bool {
+	res := c.Res
+	done := make(chan struct{})
+	go func() {
+		valid.SetCustomerValidFn(name, vmonGlobFn)
+		close(done)
+	}()
+	res.Count("late_global_registrations")
+	select {
+	case <-done:
+		return true
+	case <-time.After(90 * time.Second):
+	}
+	buf := make([]byte, 1<<20)
+	buf = buf[:runtime.Stack(buf, true)]
+	for _, bl := range strings.Split(string(buf), "\n\n") {
+		if strings.Contains(bl, "SetCustomerValidFn") && (strings.Contains(bl, "sync.(*RWMutex)") || strings.Contains(bl, "sync.(*Mutex)") || strings.Contains(bl, "[sync.")) {
+			res.Violate("C11|hang|global-registration-at-quiescence", fmt.Sprintf("SetCustomerValidFn(%q), called while no other library call was running, is blocked on a lock for 90 s: %s", name, trunc(bl, 600)),
+				map[string]interface{}{"goroutine": bl, "after": "a round of concurrent heterogeneous calls (incl. unknown rule names, refused inputs)"})
+			return false
+		}
+	}
+	res.Inconc("global registration did not return within 90 s and the goroutine dump does not show it blocked on a lock")
+	return false
 }
